@@ -520,6 +520,20 @@ pub fn gen_streams(out: &mut Out, thorough: bool, opts: &[&str], focus: &str) {
         cp += raw_stride;
     }
     out.count_n("raw_scalar_stride", raw_stride as u64);
+    // every UTF-8 length boundary and its neighbours, raw, FOLLOWED by more fragments (so that a wrong
+    // byte length shows in the later offsets), in value and key position, bare and nested
+    for cp in [0x20u32, 0x7e, 0x7f, 0x80, 0x81, 0xff, 0x100, 0x7fe, 0x7ff, 0x800, 0x801, 0xfff, 0x1000, 0x1fff, 0x2000, 0x2028, 0x2029,
+               0xd7fe, 0xd7ff, 0xe000, 0xe001, 0xfeff, 0xfffd, 0xfffe, 0xffff, 0x10000, 0x10001, 0x1ffff, 0x20000, 0xfffff, 0x100000, 0x10fffe, 0x10ffff] {
+        if let Some(c) = char::from_u32(cp) {
+            for o in opts {
+                l(req_str(&format!("[\"{}\", 1, \"{}{}\"]", c, c, c), o), out);
+                l(req_str(&format!("{{\"{}\" : [\"a{}\"], \"k\":{{\"{}{}\":null}}}}", c, c, c, c), o), out);
+                l(req_str(&format!("[1,{}]", c), o), out);
+                l(req_bytes(format!("[\"{}\",true]", c).as_bytes(), o), out);
+            }
+        }
+    }
+    out.exhaustive.push("33 code points at and around every UTF-8 length boundary / surrogate gap / noncharacters, raw in value and key position followed by further fragments, all option records, string and byte entry points".into());
     // (g) corpus documents: whole, every truncation, single-byte edits
     let files = corpus_files();
     out.count_n("corpus_documents", files.len() as u64);
